@@ -8,6 +8,7 @@ Oracle: exact comparison through Fraction(float); sorted output must be ordered,
 and stable; min/max extreme; incomparable kinds raise.
 """
 import itertools
+import json
 import math
 from fractions import Fraction
 
@@ -153,6 +154,22 @@ def cases(tier, shard, nshards):
                 continue
             for op in ("<", "==", "<=>", ">="):
                 yield Case("B%s %s B%s" % (x, op, y), {"k": "lexb", "op": op, "a": x, "b": y})
+    # identity must not matter: a stored value compared with itself (same variable, an alias, the same element reached twice)
+    # answers exactly like two separately built equal values - including when that answer is an error (NaN / dict / null elements)
+    IDV = ["[1, 2]", "[1, 0.0/0.0]", "[{}]", "[null]", "[[1], [0.0/0.0]]", "V(1.5, 0.0/0.0)", "V(1, 2)", '"ab"', "B[1, 2]", "[1, \"a\"]", "[]",
+           "(0.0/0.0)", "{}", "null", "[1.0, 2]", "[(\\q -> q)]", "(1 to 3)", "[1 to 2]"]
+    for v in IDV:
+        n += 1
+        if n % nshards != shard:
+            continue
+        for op in CMP + ["min", "max", "sort"]:
+            if op in ("min", "max"):
+                forms = ["%s(%s, %s)" % (op, v, v), "x := %s; %s(x, x)" % (v, op), "x := %s; y := x; %s(x, y)" % (v, op), "x := [%s]; %s(x[0], x[0])" % (v, op)]
+            elif op == "sort":
+                forms = ["sort([%s, %s])" % (v, v), "x := %s; sort([x, x])" % v, "x := %s; y := x; sort([y, x])" % v, "x := [%s]; sort([x[0], x[0]])" % v]
+            else:
+                forms = ["%s %s %s" % (v, op, v), "x := %s; x %s x" % (v, op), "x := %s; y := x; x %s y" % (v, op), "x := [%s]; x[0] %s x[0]" % (v, op)]
+            yield Case(forms, {"k": "identity", "op": op, "v": v}, iso=True)
     # incomparable kinds must raise for the ordering operators
     for ka, sa in OTHERS:
         for kb, sb in OTHERS:
@@ -199,9 +216,29 @@ def opval(op, c):
     return {"==": int(c == 0), "<": int(c < 0), "<=>": c, ">=": int(c >= 0)}[op]
 
 
+def judge_identity(case, rs):
+    m = case.meta
+    def oc(r):
+        st = r.get("st")
+        if st == "ok":
+            return ("ok", json.dumps(norm(r.get("v")), sort_keys=True))
+        return ("raise",) if st in ("throw", "control") else (st,)
+    base = oc(rs[0])
+    for src, r in list(zip(case.steps, rs))[1:]:
+        if crashed(r.get("st")):
+            return [Violation("C08 identity op=%s result=%s" % (m["op"], r.get("st")), "%s -> %s %s" % (src, r.get("st"), r.get("e")), base, r.get("st"))]
+        if oc(r) != base:
+            return [Violation("C08 identity op=%s result=depends-on-identity" % m["op"],
+                              "%s -> %s %s but the same comparison of two separately built values, %s -> %s %s" % (
+                                  src, r.get("st"), json.dumps(r.get("v", r.get("e")))[:120], case.steps[0], rs[0].get("st"), json.dumps(rs[0].get("v", rs[0].get("e")))[:120]), base, oc(r))]
+    return []
+
+
 def judge(case, rs):
     m = case.meta
     k = m["k"]
+    if k == "identity":
+        return judge_identity(case, rs)
     r = rs[0]
     st = r.get("st")
     src = case.steps[0]
